@@ -74,3 +74,11 @@ pub fn pretty_print_source_module(
 ) -> String {
   prettier::pretty_print(available_width, source_printer::source_module_to_document(heap, module))
 }
+
+#[cfg(samlang_verif)]
+pub mod verif_hooks {
+  /// Work counter of the if-else document builder (see source_printer.rs).
+  pub fn if_else_docs_built() -> u64 {
+    super::source_printer::VERIF_IF_ELSE_DOCS_BUILT.load(std::sync::atomic::Ordering::Relaxed)
+  }
+}
